@@ -67,36 +67,70 @@ def ctxOf (st : St) : Bool := operCtx st.acc
 def CtxIs (p : Option Bool) (st : St) : Prop := ∀ b, p = some b → ctxOf st = b
 
 def Seg (p : Option Bool) (ts : List PT) (q : Option Bool) : Prop :=
-  (∀ more, NW more → NW (detok ts ++ more)) ∧
-  ∀ (st : St) (more : Bytes), st.rest = detok ts ++ more → NW more → CtxIs p st →
+  (∀ bs more, Blanks bs → NW more → NW (detokW ts bs ++ more)) ∧
+  ∀ (st : St) (bs : List Bytes) (more : Bytes), Blanks bs → st.rest = detokW ts bs ++ more → NW more → CtxIs p st →
     ∃ st', Reach st st' ∧ st'.rest = more ∧ st'.acc.map ptOf = ts.reverse ++ st.acc.map ptOf ∧ CtxIs q st'
 
 theorem detok_append (a b : List PT) : detok (a ++ b) = detok a ++ detok b := by simp [detok]
 theorem detok_cons (t : PT) (r : List PT) : detok (t :: r) = tokText t ++ detok r := by simp [detok]
 
+theorem detokW_append : ∀ (a b : List PT) (bs : List Bytes), detokW (a ++ b) bs = detokW a bs ++ detokW b (bs.drop a.length) := by
+  intro a
+  induction a with
+  | nil => intro b bs; simp [detokW]
+  | cons t r ih =>
+    intro b bs
+    cases bs with
+    | nil => simp [detokW, ih b []]
+    | cons x xs => simp [detokW, ih b xs]
+
+theorem detokW_nil (ts : List PT) : detokW ts [] = detok ts := by
+  induction ts with
+  | nil => rfl
+  | cons t r ih => rw [detokW, ih, detok_cons]; simp [tokTextW, tokText]
+
+theorem Blanks.drop {bs : List Bytes} (h : Blanks bs) (n : Nat) : Blanks (bs.drop n) :=
+  fun b hb => h b (List.mem_of_mem_drop hb)
+
+/-- the blank string after the first token of a list -/
+def blank1 (bs : List Bytes) : Bytes := bs.headD [0x20]
+
+theorem blank1_ok {bs : List Bytes} (h : Blanks bs) : Blank (blank1 bs) := by
+  cases bs with
+  | nil => exact ⟨by simp [blank1], by intro c hc; simp [blank1] at hc; subst hc; decide⟩
+  | cons b r => exact h b (by simp)
+
+theorem detokW_cons (t : PT) (r : List PT) (bs : List Bytes) : detokW (t :: r) bs = tokTextW t (blank1 bs) ++ detokW r (bs.drop 1) := by
+  cases bs <;> simp [detokW, blank1]
+
+theorem Blank.shape {b : Bytes} (h : Blank b) : ∃ w r, b = w :: r ∧ Path.isWs w = true ∧ ∀ c ∈ r, Path.isWs c = true := by
+  cases b with
+  | nil => exact absurd rfl h.1
+  | cons w r => exact ⟨w, r, rfl, h.2 w (by simp), fun c hc => h.2 c (by simp [hc])⟩
+
 theorem Seg.append {p1 q1 p2 q2 : Option Bool} {t1 t2 : List PT} (h1 : Seg p1 t1 q1) (h2 : Seg p2 t2 q2)
     (hc : ∀ b, p2 = some b → q1 = some b) : Seg p1 (t1 ++ t2) q2 := by
   refine ⟨?_, ?_⟩
-  · intro more hm
-    rw [detok_append, List.append_assoc]
-    exact h1.1 _ (h2.1 _ hm)
-  · intro st more hr hm hp
-    rw [detok_append, List.append_assoc] at hr
-    obtain ⟨s1, r1, e1, a1, c1⟩ := h1.2 st _ hr (h2.1 _ hm) hp
-    obtain ⟨s2, r2, e2, a2, c2⟩ := h2.2 s1 more e1 hm (fun b hb => c1 b (hc b hb))
+  · intro bs more hb hm
+    rw [detokW_append, List.append_assoc]
+    exact h1.1 _ _ hb (h2.1 _ _ (Blanks.drop hb _) hm)
+  · intro st bs more hb hr hm hp
+    rw [detokW_append, List.append_assoc] at hr
+    obtain ⟨s1, r1, e1, a1, c1⟩ := h1.2 st bs _ hb hr (h2.1 _ _ (Blanks.drop hb _) hm) hp
+    obtain ⟨s2, r2, e2, a2, c2⟩ := h2.2 s1 _ more (Blanks.drop hb _) e1 hm (fun b hb => c1 b (hc b hb))
     exact ⟨s2, r1.trans r2, e2, by rw [a2, a1]; simp, c2⟩
 
 theorem Seg.pre {p q : Option Bool} {ts : List PT} (h : Seg none ts q) : Seg p ts q :=
-  ⟨h.1, fun st more hr hm _ => h.2 st more hr hm (by intro b hb; cases hb)⟩
+  ⟨h.1, fun st bs more hb hr hm _ => h.2 st bs more hb hr hm (by intro b hb; cases hb)⟩
 
 theorem Seg.post {p q : Option Bool} {ts : List PT} (h : Seg p ts q) : Seg p ts none :=
-  ⟨h.1, fun st more hr hm hp => by
-    obtain ⟨s, a, b, c, _⟩ := h.2 st more hr hm hp
+  ⟨h.1, fun st bs more hb hr hm hp => by
+    obtain ⟨s, a, b, c, _⟩ := h.2 st bs more hb hr hm hp
     exact ⟨s, a, b, c, by intro b hb; cases hb⟩⟩
 
 theorem Seg.nil : Seg none [] none :=
-  ⟨fun more hm => by simpa [detok] using hm, fun st more hr _ _ =>
-    ⟨st, Reach.refl st, by simpa [detok] using hr, by simp, by intro b hb; cases hb⟩⟩
+  ⟨fun bs more _ hm => by simpa [detokW] using hm, fun st bs more _ hr _ _ =>
+    ⟨st, Reach.refl st, by simpa [detokW] using hr, by simp, by intro b hb; cases hb⟩⟩
 
 /-- operator context after a token of kind `k` -/
 def ctxAfter (k : TK) : Bool := !(XpConsts.notOperAfter.contains k.code)
@@ -109,58 +143,75 @@ theorem ctx_of_acc {st : St} {k : TK} {tx : Bytes} {r : List PT} (h : st.acc.map
     simp only [ha, List.map_cons, List.cons.injEq, ptOf, Prod.mk.injEq] at h
     simp [ctxOf, operCtx, ha, ctxAfter, h.1.1]
 
-/-- one token stored by one iteration -/
+theorem wsLen_lead : ∀ (lead r : Bytes), (∀ c ∈ lead, Path.isWs c = true) → wsLen r = 0 → wsLen (lead ++ r) = lead.length := by
+  intro lead
+  induction lead with
+  | nil => intro r _ h; simpa using h
+  | cons c t ih =>
+    intro r hl h
+    have hc : Path.isWs c = true := hl c (by simp)
+    simp [wsLen, hc, ih r (fun x hx => hl x (by simp [hx])) h]
+
+/-- one iteration whose token is followed by the blank string `b` -/
+theorem iter_blank {st sN : St} {b more' : Bytes} (hs : lexStep st = .ok sN) (hrest : sN.rest = b ++ more')
+    (hb : ∀ c ∈ b, Path.isWs c = true) (hm : wsLen more' = 0) :
+    Step1 st { sN with pos := sN.pos + b.length, rest := more' } :=
+  ⟨sN, hs, by simp [St.skipWs, hrest, wsLen_lead b more' hb hm]⟩
+
+theorem ws_cases {w : UInt8} (h : Path.isWs w = true) : w = 0x20 ∨ w = 0x9 ∨ w = 0xa ∨ w = 0xd := by
+  simpa [Path.isWs, or_assoc] using h
+
+/-- one token stored by one iteration, whatever blank string follows it -/
 theorem seg_push (k : TK) (tx : Bytes) (htx : ∃ c r, tx = c :: r ∧ Path.isWs c = false) (hk : k ≠ .axisname ∧ k ≠ .dcolon)
     (p : Option Bool)
-    (hstep : ∀ (st : St) (more : Bytes), st.rest = tx ++ 0x20 :: more → CtxIs p st → lexStep st = .ok (st.push k tx.length)) :
+    (hstep : ∀ (st : St) (w : UInt8) (more : Bytes), Path.isWs w = true → st.rest = tx ++ w :: more → CtxIs p st →
+      lexStep st = .ok (st.push k tx.length)) :
     Seg p [(k, tx)] (some (ctxAfter k)) := by
-  have htt : tokText (k, tx) = tx ++ [0x20] := by
+  have htt : ∀ b, tokTextW (k, tx) b = tx ++ b := by
+    intro b
     have a : (k == TK.axisname) = false := by simpa using hk.1
-    have b : (k == TK.dcolon) = false := by simpa using hk.2
-    simp [tokText, a, b]
-  have hd : detok [(k, tx)] = tx ++ [0x20] := by simp [detok, htt]
+    have c : (k == TK.dcolon) = false := by simpa using hk.2
+    simp [tokTextW, a, c]
+  have hd : ∀ bs, detokW [(k, tx)] bs = tx ++ blank1 bs := by intro bs; rw [detokW_cons, htt]; simp [detokW]
   refine ⟨?_, ?_⟩
-  · intro more _
+  · intro bs more _ _
     obtain ⟨c, r, rfl, hc⟩ := htx
     rw [hd]
     exact NW.cons hc
-  · intro st more hr hm hp
+  · intro st bs more hb hr hm hp
     rw [hd] at hr
-    have hr' : st.rest = tx ++ 0x20 :: more := by rw [hr]; simp
-    have hs := hstep st more hr' hp
-    have hrest : (st.push k tx.length).rest = 0x20 :: more := by simp [St.push, hr']
-    have hws : wsLen (0x20 :: more) = 1 := by
-      have : wsLen more = 0 := hm
-      simp [wsLen, Path.isWs, this]
-    refine ⟨(st.push k tx.length).skipWs, Reach.single ⟨_, hs, rfl⟩, ?_, ?_, ?_⟩
-    · simp [St.skipWs, hrest, hws]
-    · simp [St.skipWs, St.push, ptOf, hr']
+    obtain ⟨w, b', hbw, hw, hb'⟩ := Blank.shape (blank1_ok hb)
+    have hr' : st.rest = tx ++ w :: (b' ++ more) := by rw [hr, hbw]; simp
+    have hs := hstep st w _ hw hr' hp
+    have hrest : (st.push k tx.length).rest = (w :: b') ++ more := by simp [St.push, hr']
+    have s1 := iter_blank hs hrest (by intro c hc; simp at hc; rcases hc with rfl | hc; exact hw; exact hb' c hc) hm
+    refine ⟨_, Reach.single s1, rfl, ?_, ?_⟩
+    · simp [St.push, ptOf, hr']
     · intro b hb
       cases hb
-      exact ctx_of_acc (st := (st.push k tx.length).skipWs) (k := k) (tx := tx) (r := st.acc.map ptOf)
-        (by simp [St.skipWs, St.push, ptOf, hr'])
-
+      exact ctx_of_acc (k := k) (tx := tx) (r := st.acc.map ptOf) (by simp [St.push, ptOf, hr'])
 
 /-! ### the single tokens -/
 
 theorem seg_par2 : Seg none [tPar2] (some true) :=
   seg_push .par2 [0x29] ⟨_, _, rfl, by decide⟩ ⟨by decide, by decide⟩ none
-    (fun st more hr _ => by simp [lexStep, hr, lexChar])
+    (fun st w more hw hr _ => by simp [lexStep, hr, lexChar])
 theorem seg_brack1 : Seg none [tBrack1] (some false) :=
   seg_push .brack1 [0x5b] ⟨_, _, rfl, by decide⟩ ⟨by decide, by decide⟩ none
-    (fun st more hr _ => by simp [lexStep, hr, lexChar])
+    (fun st w more hw hr _ => by simp [lexStep, hr, lexChar])
 theorem seg_brack2 : Seg none [tBrack2] (some true) :=
   seg_push .brack2 [0x5d] ⟨_, _, rfl, by decide⟩ ⟨by decide, by decide⟩ none
-    (fun st more hr _ => by simp [lexStep, hr, lexChar])
+    (fun st w more hw hr _ => by simp [lexStep, hr, lexChar])
 theorem seg_comma : Seg none [tComma] (some false) :=
   seg_push .comma [0x2c] ⟨_, _, rfl, by decide⟩ ⟨by decide, by decide⟩ none
-    (fun st more hr _ => by simp [lexStep, hr, lexChar, lexChar2])
+    (fun st w more hw hr _ => by simp [lexStep, hr, lexChar, lexChar2])
 theorem seg_slash : Seg none [tSlash] (some false) :=
   seg_push .operPath [0x2f] ⟨_, _, rfl, by decide⟩ ⟨by decide, by decide⟩ none
-    (fun st more hr _ => by simp [lexStep, hr, lexChar, lexChar2, lexChar3, Path.isDigit])
+    (fun st w more hw hr _ => by
+      rcases ws_cases hw with rfl | rfl | rfl | rfl <;> simp [lexStep, hr, lexChar, lexChar2, lexChar3, Path.isDigit])
 theorem seg_minus : Seg none [tMinus] (some false) :=
   seg_push .operMath [0x2d] ⟨_, _, rfl, by decide⟩ ⟨by decide, by decide⟩ none
-    (fun st more hr _ => by simp [lexStep, hr, lexChar, lexChar2, lexChar3, lexChar4, Path.isDigit])
+    (fun st w more hw hr _ => by simp [lexStep, hr, lexChar, lexChar2, lexChar3, lexChar4, Path.isDigit])
 
 theorem reclassify_id {st : St} (h : operCtx st.acc = false) : reclassify st = st := by
   unfold reclassify
@@ -178,7 +229,7 @@ theorem reclassify_id {st : St} (h : operCtx st.acc = false) : reclassify st = s
 
 theorem seg_par1 : Seg (some false) [tPar1] (some false) :=
   seg_push .par1 [0x28] ⟨_, _, rfl, by decide⟩ ⟨by decide, by decide⟩ (some false)
-    (fun st more hr hp => by
+    (fun st w more hw hr hp => by
       have : operCtx st.acc = false := hp false rfl
       simp [lexStep, hr, lexChar, reclassify_id this])
 
@@ -194,9 +245,9 @@ theorem seg_lit (s : Bytes) (hw : wf (.lit s) = true) : Seg none [(.literal, quo
     · simp only [h, Bool.false_eq_true, if_false]
       exact ⟨by first | trivial | exact Or.inl rfl, by simpa using h⟩
   refine seg_push .literal _ ⟨_, _, rfl, by rcases hq.1 with h | h <;> rw [h] <;> decide⟩ ⟨by decide, by decide⟩ none ?_
-  intro st more hr _
-  have hsl := Path.scanLit_spec (quoteFor s) s (0x20 :: more) hq.2
-  have hr' : st.rest = quoteFor s :: (s ++ quoteFor s :: 0x20 :: more) := by rw [hr]; simp
+  intro st w more hw hr _
+  have hsl := Path.scanLit_spec (quoteFor s) s (w :: more) hq.2
+  have hr' : st.rest = quoteFor s :: (s ++ quoteFor s :: w :: more) := by rw [hr]; simp
   rcases hq.1 with h | h <;>
     simp [lexStep, hr', lexChar, lexChar2, h] <;> (rw [h] at hsl; simp [hsl])
 
@@ -252,18 +303,24 @@ theorem numText_shape (m sc : Nat) : ∃ a b, numText m sc = a ++ b ∧ Path.All
     simp only [List.length_take] at this
     omega
 
-theorem scanNum_numText (m sc : Nat) (more : Bytes) :
-    Path.scanNum (numText m sc ++ 0x20 :: more) = (numText m sc, 0x20 :: more) := by
+theorem ws_not_digit {w : UInt8} (hw : Path.isWs w = true) : Path.isDigit w = false ∧ w ≠ 0x2e := by
+  rcases ws_cases hw with rfl | rfl | rfl | rfl <;> decide
+
+theorem scanNum_numText (m sc : Nat) (w : UInt8) (hw : Path.isWs w = true) (more : Bytes) :
+    Path.scanNum (numText m sc ++ w :: more) = (numText m sc, w :: more) := by
+  obtain ⟨hwd, hwp⟩ := ws_not_digit hw
   obtain ⟨a, b, hab, ha, _, hb⟩ := numText_shape m sc
   rw [hab]
   unfold Path.scanNum
   rcases hb with rfl | ⟨b', rfl, hb'⟩
-  · have := Path.spanDigits_spec a (0x20 :: more) ha (by simp [Path.isDigit])
+  · have := Path.spanDigits_spec a (w :: more) ha (by simp [hwd])
     simp only [List.append_nil, this]
-    rfl
-  · have h1 := Path.spanDigits_spec a (0x2e :: (b' ++ 0x20 :: more)) ha (by simp [Path.isDigit])
-    have h2 := Path.spanDigits_spec b' (0x20 :: more) hb' (by simp [Path.isDigit])
-    have e : a ++ 0x2e :: b' ++ 0x20 :: more = a ++ 0x2e :: (b' ++ 0x20 :: more) := by simp
+    split
+    · next heq => simp only [Prod.mk.injEq, List.cons.injEq] at heq; exact absurd heq.2.1 hwp
+    · next heq => simp only [Prod.mk.injEq] at heq; rw [← heq.1, ← heq.2]
+  · have h1 := Path.spanDigits_spec a (0x2e :: (b' ++ w :: more)) ha (by simp [Path.isDigit])
+    have h2 := Path.spanDigits_spec b' (w :: more) hb' (by simp [hwd])
+    have e : a ++ 0x2e :: b' ++ w :: more = a ++ 0x2e :: (b' ++ w :: more) := by simp
     rw [e, h1]
     simp only [h2, List.append_assoc, List.cons_append]
 
@@ -275,10 +332,10 @@ theorem seg_num (m sc : Nat) : Seg none [(.number, numText m sc)] (some true) :=
     | cons c a' => exact ⟨c, a', rfl⟩
   have hc : Path.isDigit c = true := ha c (by simp)
   refine seg_push .number _ ⟨c, a' ++ b, by rw [hab]; simp, digit_not_ws hc⟩ ⟨by decide, by decide⟩ none ?_
-  intro st more hr _
-  have hsn := scanNum_numText m sc more
-  have hr' : st.rest = c :: (a' ++ b ++ 0x20 :: more) := by rw [hr, hab]; simp
-  have hsn' : Path.scanNum (c :: (a' ++ b ++ 0x20 :: more)) = (numText m sc, 0x20 :: more) := by
+  intro st w more hw hr _
+  have hsn := scanNum_numText m sc w hw more
+  have hr' : st.rest = c :: (a' ++ b ++ w :: more) := by rw [hr, hab]; simp
+  have hsn' : Path.scanNum (c :: (a' ++ b ++ w :: more)) = (numText m sc, w :: more) := by
     rw [← hsn, hab]; simp
   simp only [lexStep, hr']
   rw [lexChar_digit st _ hc, hsn']
@@ -286,7 +343,7 @@ theorem seg_num (m sc : Nat) : Seg none [(.number, numText m sc)] (some true) :=
 /-! ### names -/
 
 /-- what follows a name in a canonical text: a space, a colon, or nothing -/
-def Stop (rest : Bytes) : Prop := rest = [] ∨ ∃ c r, rest = c :: r ∧ (c = 0x20 ∨ c = 0x3a)
+def Stop (rest : Bytes) : Prop := rest = [] ∨ ∃ c r, rest = c :: r ∧ (Path.isWs c = true ∨ c = 0x3a)
 
 theorem ncnameRest_stop (rest : Bytes) (hr : Stop rest) :
     ∀ (t : Bytes), (∀ d ∈ t, Path.IsIdentChar d) → ∀ fuel, t.length ≤ fuel →
@@ -300,10 +357,14 @@ theorem ncnameRest_stop (rest : Bytes) (hr : Stop rest) :
     | succ f =>
       rcases hr with rfl | ⟨c, r, rfl, hc⟩
       · simp [Path.ncnameRest]
-      · have hd : Path.decodeCp (c :: r) = some (c.toNat, 1) := by
-          apply Path.decodeCp_ascii <;> rcases hc with rfl | rfl <;> decide
+      · have hc' : c = 0x20 ∨ c = 0x9 ∨ c = 0xa ∨ c = 0xd ∨ c = 0x3a := by
+          rcases hc with hc | hc
+          · rcases ws_cases hc with h | h | h | h <;> simp [h]
+          · simp [hc]
+        have hd : Path.decodeCp (c :: r) = some (c.toNat, 1) := by
+          rcases hc' with rfl | rfl | rfl | rfl | rfl <;> simp [Path.decodeCp]
         have hn : (Path.isNameCp c.toNat && c.toNat != 58) = false := by
-          rcases hc with rfl | rfl <;> decide
+          rcases hc' with rfl | rfl | rfl | rfl | rfl <;> decide
         simp [Path.ncnameRest, hd, hn]
   | cons c t ih =>
     intro ht fuel hf
@@ -326,7 +387,8 @@ theorem ncname_stop {nm : Bytes} (hn : Path.IsIdent nm) (rest : Bytes) (hr : Sto
     have := ncnameRest_stop rest hr t ht (t.length + rest.length + 1) (by omega)
     simp [Path.ncname, hd, h1, hne, this]
 
-theorem stop_space (r : Bytes) : Stop (0x20 :: r) := Or.inr ⟨_, _, rfl, Or.inl rfl⟩
+theorem stop_space (r : Bytes) : Stop (0x20 :: r) := Or.inr ⟨_, _, rfl, Or.inl (by decide)⟩
+theorem stop_ws {w : UInt8} (hw : Path.isWs w = true) (r : Bytes) : Stop (w :: r) := Or.inr ⟨_, _, rfl, Or.inl hw⟩
 theorem stop_colon (r : Bytes) : Stop (0x3a :: r) := Or.inr ⟨_, _, rfl, Or.inr rfl⟩
 
 theorem lexChar_ident (st : St) {c : UInt8} (r : Bytes) (hc : Path.IsIdentStart c) :
@@ -383,10 +445,10 @@ def opNeedsCtx : BinOp → Bool
   | .or | .and | .mul | .div | .mod => true
   | _ => false
 
-theorem operName_true (st : St) (nm more : Bytes) (hr : st.rest = nm ++ 0x20 :: more) (hid : Path.IsIdent nm) :
-    operName st nm = true := by
+theorem operName_true (st : St) (nm : Bytes) (w : UInt8) (hw : Path.isWs w = true) (more : Bytes)
+    (hr : st.rest = nm ++ w :: more) (hid : Path.IsIdent nm) : operName st nm = true := by
   have h1 : startsWith st.rest nm = true := by simp [startsWith, hr]
-  have h2 : Path.ncname st.rest = some nm.length := by rw [hr]; exact ncname_stop hid _ (stop_space _)
+  have h2 : Path.ncname st.rest = some nm.length := by rw [hr]; exact ncname_stop hid _ (stop_ws hw _)
   simp [operName, h1, h2]
 
 theorem operName_false (st : St) (nm : Bytes) (h : startsWith st.rest nm = false) : operName st nm = false := by
@@ -396,66 +458,68 @@ theorem seg_op (op : BinOp) : Seg (if opNeedsCtx op then some true else none) [o
   cases op
   case or =>
     exact seg_push .operLog [0x6f, 0x72] ⟨_, _, rfl, by decide⟩ ⟨by decide, by decide⟩ (some true)
-      (fun st more hr hp => by
+      (fun st w more hw hr hp => by
         have : operCtx st.acc = true := hp true rfl
-        have h_or : operName st [0x6f, 0x72] = true := operName_true st _ more hr (by decide)
+        have h_or : operName st [0x6f, 0x72] = true := operName_true st _ w hw more hr (by decide)
         simp [lexStep, hr, lexChar, lexChar2, lexChar3, lexChar4, Path.isDigit, this, lexOper, startsWith, h_or])
   case and =>
     exact seg_push .operLog [0x61, 0x6e, 0x64] ⟨_, _, rfl, by decide⟩ ⟨by decide, by decide⟩ (some true)
-      (fun st more hr hp => by
+      (fun st w more hw hr hp => by
         have : operCtx st.acc = true := hp true rfl
         have h_or : operName st [0x6f, 0x72] = false := operName_false st _ (by simp [startsWith, hr, List.isPrefixOf])
-        have h_and : operName st [0x61, 0x6e, 0x64] = true := operName_true st _ more hr (by decide)
+        have h_and : operName st [0x61, 0x6e, 0x64] = true := operName_true st _ w hw more hr (by decide)
         simp [lexStep, hr, lexChar, lexChar2, lexChar3, lexChar4, Path.isDigit, this, lexOper, startsWith, h_or, h_and])
   case mul =>
     exact seg_push .operMath [0x2a] ⟨_, _, rfl, by decide⟩ ⟨by decide, by decide⟩ (some true)
-      (fun st more hr hp => by
+      (fun st w more hw hr hp => by
         have : operCtx st.acc = true := hp true rfl
         simp [lexStep, hr, lexChar, lexChar2, lexChar3, lexChar4, Path.isDigit, this, lexOper, startsWith])
   case div =>
     exact seg_push .operMath [0x64, 0x69, 0x76] ⟨_, _, rfl, by decide⟩ ⟨by decide, by decide⟩ (some true)
-      (fun st more hr hp => by
+      (fun st w more hw hr hp => by
         have : operCtx st.acc = true := hp true rfl
         have h_or : operName st [0x6f, 0x72] = false := operName_false st _ (by simp [startsWith, hr, List.isPrefixOf])
         have h_and : operName st [0x61, 0x6e, 0x64] = false := operName_false st _ (by simp [startsWith, hr, List.isPrefixOf])
         have h_mod : operName st [0x6d, 0x6f, 0x64] = false := operName_false st _ (by simp [startsWith, hr, List.isPrefixOf])
-        have h_div : operName st [0x64, 0x69, 0x76] = true := operName_true st _ more hr (by decide)
+        have h_div : operName st [0x64, 0x69, 0x76] = true := operName_true st _ w hw more hr (by decide)
         simp [lexStep, hr, lexChar, lexChar2, lexChar3, lexChar4, Path.isDigit, this, lexOper, startsWith, h_or, h_and, h_mod, h_div])
   case mod =>
     exact seg_push .operMath [0x6d, 0x6f, 0x64] ⟨_, _, rfl, by decide⟩ ⟨by decide, by decide⟩ (some true)
-      (fun st more hr hp => by
+      (fun st w more hw hr hp => by
         have : operCtx st.acc = true := hp true rfl
         have h_or : operName st [0x6f, 0x72] = false := operName_false st _ (by simp [startsWith, hr, List.isPrefixOf])
         have h_and : operName st [0x61, 0x6e, 0x64] = false := operName_false st _ (by simp [startsWith, hr, List.isPrefixOf])
-        have h_mod : operName st [0x6d, 0x6f, 0x64] = true := operName_true st _ more hr (by decide)
+        have h_mod : operName st [0x6d, 0x6f, 0x64] = true := operName_true st _ w hw more hr (by decide)
         simp [lexStep, hr, lexChar, lexChar2, lexChar3, lexChar4, Path.isDigit, this, lexOper, startsWith, h_or, h_and, h_mod])
   case eq =>
     exact seg_push .operEqual [0x3d] ⟨_, _, rfl, by decide⟩ ⟨by decide, by decide⟩ none
-      (fun st more hr _ => by simp [lexStep, hr, lexChar, lexChar2, lexChar3, lexChar4, Path.isDigit])
+      (fun st w more hw hr _ => by simp [lexStep, hr, lexChar, lexChar2, lexChar3, lexChar4, Path.isDigit])
   case ne =>
     exact seg_push .operNequal [0x21, 0x3d] ⟨_, _, rfl, by decide⟩ ⟨by decide, by decide⟩ none
-      (fun st more hr _ => by simp [lexStep, hr, lexChar, lexChar2, lexChar3, lexChar4, Path.isDigit])
+      (fun st w more hw hr _ => by simp [lexStep, hr, lexChar, lexChar2, lexChar3, lexChar4, Path.isDigit])
   case lt =>
     exact seg_push .operComp [0x3c] ⟨_, _, rfl, by decide⟩ ⟨by decide, by decide⟩ none
-      (fun st more hr _ => by simp [lexStep, hr, lexChar, lexChar2, lexChar3, lexChar4, Path.isDigit])
+      (fun st w more hw hr _ => by
+        rcases ws_cases hw with rfl | rfl | rfl | rfl <;> simp [lexStep, hr, lexChar, lexChar2, lexChar3, lexChar4, Path.isDigit])
   case le =>
     exact seg_push .operComp [0x3c, 0x3d] ⟨_, _, rfl, by decide⟩ ⟨by decide, by decide⟩ none
-      (fun st more hr _ => by simp [lexStep, hr, lexChar, lexChar2, lexChar3, lexChar4, Path.isDigit])
+      (fun st w more hw hr _ => by simp [lexStep, hr, lexChar, lexChar2, lexChar3, lexChar4, Path.isDigit])
   case gt =>
     exact seg_push .operComp [0x3e] ⟨_, _, rfl, by decide⟩ ⟨by decide, by decide⟩ none
-      (fun st more hr _ => by simp [lexStep, hr, lexChar, lexChar2, lexChar3, lexChar4, Path.isDigit])
+      (fun st w more hw hr _ => by
+        rcases ws_cases hw with rfl | rfl | rfl | rfl <;> simp [lexStep, hr, lexChar, lexChar2, lexChar3, lexChar4, Path.isDigit])
   case ge =>
     exact seg_push .operComp [0x3e, 0x3d] ⟨_, _, rfl, by decide⟩ ⟨by decide, by decide⟩ none
-      (fun st more hr _ => by simp [lexStep, hr, lexChar, lexChar2, lexChar3, lexChar4, Path.isDigit])
+      (fun st w more hw hr _ => by simp [lexStep, hr, lexChar, lexChar2, lexChar3, lexChar4, Path.isDigit])
   case add =>
     exact seg_push .operMath [0x2b] ⟨_, _, rfl, by decide⟩ ⟨by decide, by decide⟩ none
-      (fun st more hr _ => by simp [lexStep, hr, lexChar, lexChar2, lexChar3, lexChar4, Path.isDigit])
+      (fun st w more hw hr _ => by simp [lexStep, hr, lexChar, lexChar2, lexChar3, lexChar4, Path.isDigit])
   case sub =>
     exact seg_push .operMath [0x2d] ⟨_, _, rfl, by decide⟩ ⟨by decide, by decide⟩ none
-      (fun st more hr _ => by simp [lexStep, hr, lexChar, lexChar2, lexChar3, lexChar4, Path.isDigit])
+      (fun st w more hw hr _ => by simp [lexStep, hr, lexChar, lexChar2, lexChar3, lexChar4, Path.isDigit])
   case union =>
     exact seg_push .operUni [0x7c] ⟨_, _, rfl, by decide⟩ ⟨by decide, by decide⟩ none
-      (fun st more hr _ => by simp [lexStep, hr, lexChar, lexChar2, lexChar3, lexChar4, Path.isDigit])
+      (fun st w more hw hr _ => by simp [lexStep, hr, lexChar, lexChar2, lexChar3, lexChar4, Path.isDigit])
 
 theorem namePart_ident {nm : Bytes} (hn : Path.IsIdent nm) (rest : Bytes) (hr : Stop rest) :
     namePart (nm ++ rest) = some nm.length := by
@@ -491,31 +555,48 @@ theorem axisGap_nonws {r : Bytes} (h : wsLen r = 0) : axisGap r = 0 := by
   · exact h
   · rfl
 
-theorem no_axis_after_space (c : UInt8) (r : Bytes) (hc : Path.isWs c = false) (hcc : c ≠ 0x3a) :
-    startsWith ((0x20 :: c :: r).drop (axisGap (0x20 :: c :: r))) [0x3a, 0x3a] = false := by
-  have hcb : (0x3a == c) = false := by simpa using fun h => hcc h.symm
-  unfold axisGap; split
-  · rw [wsLen_space_then r hc]; simp [startsWith, List.isPrefixOf, hcb]
-  · simp [startsWith, List.isPrefixOf]
+theorem ws_ne_colon {w : UInt8} (hw : Path.isWs w = true) : w ≠ 0x3a := by
+  rcases ws_cases hw with rfl | rfl | rfl | rfl <;> decide
 
-/-- `nameTail` on an identifier that is followed by a space: one NameTest; `prev_ntype_check` is set, `prev_func_check` unless
+/-- after a name and a blank string that is followed by `c` (no blank, no `:`), no `::` is found -/
+theorem no_axis_after_blank (w : UInt8) (b : Bytes) (c : UInt8) (r : Bytes) (hw : Path.isWs w = true)
+    (hb : ∀ x ∈ b, Path.isWs x = true) (hc : Path.isWs c = false) (hcc : c ≠ 0x3a) :
+    startsWith ((w :: (b ++ c :: r)).drop (axisGap (w :: (b ++ c :: r)))) [0x3a, 0x3a] = false := by
+  have hcb : (0x3a == c) = false := by simpa using fun h => hcc h.symm
+  have hwb : (0x3a == w) = false := by simpa using fun h => ws_ne_colon hw h.symm
+  have hl : wsLen (w :: (b ++ c :: r)) = (w :: b).length := by
+    have := wsLen_lead (w :: b) (c :: r) (by intro x hx; simp at hx; rcases hx with rfl | hx; exact hw; exact hb x hx)
+      (by simp [wsLen, hc])
+    simpa using this
+  unfold axisGap; split
+  · rw [hl]
+    have : (w :: (b ++ c :: r)).drop (w :: b).length = c :: r := by
+      have e : w :: (b ++ c :: r) = (w :: b) ++ c :: r := by simp
+      rw [e, List.drop_left' rfl]
+    rw [this]; simp [startsWith, List.isPrefixOf, hcb]
+  · simp [startsWith, List.isPrefixOf, hwb]
+
+/-- `nameTail` on an identifier that is followed by a blank: one NameTest; `prev_ntype_check` is set, `prev_func_check` unless
 an axis precedes -/
-theorem nameTail_ident_space (st : St) {nm : Bytes} (hn : Path.IsIdent nm) (more : Bytes) (hr : st.rest = nm ++ 0x20 :: more)
-    (b : Bool) :
-    nameTail st nm.length b = .ok { acc := ⟨.nametest, st.pos, nm⟩ :: st.acc, ntype := true, pos := st.pos + nm.length, rest := 0x20 :: more, func := !b } := by
-  have hdrop : st.rest.drop nm.length = 0x20 :: more := by rw [hr]; simp
+theorem nameTail_ident_space (st : St) {nm : Bytes} (hn : Path.IsIdent nm) (w : UInt8) (hw : Path.isWs w = true) (more : Bytes)
+    (hr : st.rest = nm ++ w :: more) (b : Bool) :
+    nameTail st nm.length b = .ok { acc := ⟨.nametest, st.pos, nm⟩ :: st.acc, ntype := true, pos := st.pos + nm.length, rest := w :: more, func := !b } := by
+  have hdrop : st.rest.drop nm.length = w :: more := by rw [hr]; simp
   have htake : st.rest.take nm.length = nm := by rw [hr]; simp
   obtain ⟨c, t, hct, hc⟩ := ident_head hn
   have h42 : (c == 42) = false := (Path.identStart_ne hc).2.2.2.2.2.2.2.2.2.2.2.2.2.2.2.2.2.2.2
   have hhead : (st.rest.head? != some 0x2a) = true := by
     simp only [hr, hct, List.cons_append, List.head?_cons]
     simpa using h42
-  simp [nameTail, namePlain, hdrop, hhead, St.push, htake]
+  have hwc := ws_ne_colon hw
+  simp only [nameTail, hdrop]
+  split
+  · next heq => simp only [List.cons.injEq] at heq; exact absurd heq.1 hwc
+  · simp [namePlain, hhead, St.push, htake, hdrop]
 
-/-- one iteration whose token is followed by exactly one space -/
-theorem iter_space {st sN : St} {more' : Bytes} (hs : lexStep st = .ok sN) (hrest : sN.rest = 0x20 :: more')
-    (hw : wsLen (0x20 :: more') = 1) : Step1 st { sN with pos := sN.pos + 1, rest := more' } :=
-  ⟨sN, hs, by simp [St.skipWs, hrest, hw]⟩
+theorem allws_cons {w : UInt8} {b : Bytes} (hw : Path.isWs w = true) (hb : ∀ c ∈ b, Path.isWs c = true) :
+    ∀ c ∈ w :: b, Path.isWs c = true := by
+  intro c hc; simp at hc; rcases hc with rfl | hc; exact hw; exact hb c hc
 
 theorem seg_fn (name : String) (n : Nat) (h : fnOk name n = true) :
     Seg (some false) [(.funcname, fnBytes name), tPar1] (some false) := by
@@ -528,45 +609,45 @@ theorem seg_fn (name : String) (n : Nat) (h : fnOk name n = true) :
   obtain ⟨hid, hnt⟩ := fn_bytes_facts g hg
   rw [hfb]
   generalize g.bytes = fb at hid hnt
-  have hd : ∀ more, detok [(.funcname, fb), tPar1] ++ more = fb ++ 0x20 :: 0x28 :: 0x20 :: more := by
-    intro more; simp [detok, tokText, tPar1]
+  have hd : ∀ bs more, detokW [(.funcname, fb), tPar1] bs ++ more =
+      fb ++ (blank1 bs ++ 0x28 :: (blank1 (bs.drop 1) ++ more)) := by
+    intro bs more; simp [detokW_cons, detokW, tokTextW, tPar1]
   obtain ⟨c, t, hct, hc⟩ := ident_head hid
   refine ⟨?_, ?_⟩
-  · intro more _
+  · intro bs more _ _
     rw [hd, hct]
     exact NW.cons (identStart_not_ws hc)
-  · intro st more hr hm hp
+  · intro st bs more hb hr hm hp
     rw [hd] at hr
+    obtain ⟨w1, r1, e1, hw1, hr1⟩ := Blank.shape (blank1_ok hb)
+    obtain ⟨w2, r2, e2, hw2, hr2⟩ := Blank.shape (blank1_ok (Blanks.drop hb 1))
+    rw [e1, e2] at hr
+    have hr' : st.rest = fb ++ w1 :: (r1 ++ 0x28 :: (w2 :: r2 ++ more)) := by rw [hr]; simp
     have hctx : operCtx st.acc = false := hp false rfl
     -- first iteration: the name
-    have h1 : lexStep st = .ok { acc := ⟨.nametest, st.pos, fb⟩ :: st.acc, ntype := true, func := true,
-                                 pos := st.pos + fb.length, rest := 0x20 :: 0x28 :: 0x20 :: more } := by
-      have hp' := namePart_ident hid (0x20 :: 0x28 :: 0x20 :: more) (stop_space _)
-      have hdrop : st.rest.drop fb.length = 0x20 :: 0x28 :: 0x20 :: more := by rw [hr]; simp
-      have hl := nameTail_ident_space st hid (0x28 :: 0x20 :: more) hr false
-      have e : lexStep st = lexChar st c (t ++ 0x20 :: 0x28 :: 0x20 :: more) := by simp [lexStep, hr, hct]
+    have h1 : lexStep st = .ok { acc := ⟨.nametest, st.pos, fb⟩ :: st.acc, ntype := true, func := true, pos := st.pos + fb.length, rest := (w1 :: r1) ++ 0x28 :: (w2 :: r2 ++ more) } := by
+      have hp' := namePart_ident hid (w1 :: (r1 ++ 0x28 :: (w2 :: r2 ++ more))) (stop_ws hw1 _)
+      have hdrop : st.rest.drop fb.length = w1 :: (r1 ++ 0x28 :: (w2 :: r2 ++ more)) := by rw [hr']; simp
+      have hl := nameTail_ident_space st hid w1 hw1 _ hr' false
+      have e : lexStep st = lexChar st c (t ++ w1 :: (r1 ++ 0x28 :: (w2 :: r2 ++ more))) := by simp [lexStep, hr', hct]
       rw [e, lexChar_ident st _ hc, hctx]
       simp only [Bool.false_eq_true, if_false, lexName]
-      rw [← hr] at hp'
+      rw [← hr'] at hp'
       have hsw : startsWith (st.rest.drop (fb.length + axisGap (st.rest.drop fb.length))) [0x3a, 0x3a] = false := by
-        rw [← List.drop_drop, hdrop]; exact no_axis_after_space 0x28 _ (by decide) (by decide)
+        rw [← List.drop_drop, hdrop]; exact no_axis_after_blank w1 r1 0x28 _ hw1 hr1 (by decide) (by decide)
       simp only [hp', hsw]
       simpa using hl
-    have s1 := iter_space h1 rfl (wsLen_space_then (c := 0x28) _ (by decide))
+    have s1 := iter_blank h1 rfl (allws_cons hw1 hr1) (by simp [wsLen, Path.isWs])
     -- second iteration: `(` turns the NameTest into a FunctionName
-    have h2 : lexStep { acc := ⟨.nametest, st.pos, fb⟩ :: st.acc, ntype := true, func := true,
-                        pos := st.pos + fb.length + 1, rest := 0x28 :: 0x20 :: more } =
-        .ok { acc := ⟨.par1, st.pos + fb.length + 1, [0x28]⟩ :: ⟨.funcname, st.pos, fb⟩ :: st.acc, ntype := false, func := false,
-              pos := st.pos + fb.length + 1 + 1, rest := 0x20 :: more } := by
-      have hnt' : fb ∉ XpConsts.nodeTypeNames := by simpa using hnt
+    have hnt' : fb ∉ XpConsts.nodeTypeNames := by simpa using hnt
+    have h2 : lexStep { acc := ⟨.nametest, st.pos, fb⟩ :: st.acc, ntype := true, func := true, pos := st.pos + fb.length + (w1 :: r1).length, rest := 0x28 :: (w2 :: r2 ++ more) } = .ok { acc := ⟨.par1, st.pos + fb.length + (w1 :: r1).length, [0x28]⟩ :: ⟨.funcname, st.pos, fb⟩ :: st.acc, ntype := false, func := false, pos := st.pos + fb.length + (w1 :: r1).length + 1, rest := (w2 :: r2) ++ more } := by
       simp [lexStep, lexChar, reclassify, hnt', St.push]
-    have s2 := iter_space h2 rfl (wsLen_space hm)
+    have s2 := iter_blank h2 rfl (allws_cons hw2 hr2) hm
     refine ⟨_, Reach.step s1 (Reach.single s2), rfl, ?_, ?_⟩
     · simp [ptOf, tPar1]
     · intro b hb
       cases hb
       exact ctx_of_acc (k := .par1) (tx := [0x28]) (r := (.funcname, fb) :: st.acc.map ptOf) (by simp [ptOf])
-
 
 /-! ### steps: `axis::test` -/
 
@@ -605,33 +686,36 @@ theorem starStop_ident {st : St} {nm rest : Bytes} (hn : Path.IsIdent nm) (hr : 
 
 /-- the common end of a step whose test is one NameTest token -/
 theorem seg_step_name (ax : Axis) (tx : Bytes) (htx : ∃ c r, tx = c :: r ∧ Path.isWs c = false)
-    (hlex : ∀ (st2 : St) (more : Bytes), st2.rest = tx ++ 0x20 :: more →
+    (hlex : ∀ (st2 : St) (w : UInt8) (more : Bytes), Path.isWs w = true → st2.rest = tx ++ w :: more →
       ∃ n2 f1 f2, namePart st2.rest = some n2 ∧
-        nameTail st2 n2 true = .ok { acc := ⟨.nametest, st2.pos, tx⟩ :: st2.acc, ntype := f1, func := f2, pos := st2.pos + tx.length, rest := 0x20 :: more }) :
+        nameTail st2 n2 true = .ok { acc := ⟨.nametest, st2.pos, tx⟩ :: st2.acc, ntype := f1, func := f2, pos := st2.pos + tx.length, rest := w :: more }) :
     Seg (some false) [(.axisname, axisBytes ax), tDcolon, (.nametest, tx)] (some true) := by
   obtain ⟨hid, _⟩ := axis_facts ax
   obtain ⟨c0, t0, hct0, hc0⟩ := ident_head hid
-  have hd : ∀ more, detok [(.axisname, axisBytes ax), tDcolon, (.nametest, tx)] ++ more =
-      axisBytes ax ++ 0x3a :: 0x3a :: (tx ++ 0x20 :: more) := by
-    intro more; simp [detok, tokText, tDcolon]
+  have hd : ∀ bs more, detokW [(.axisname, axisBytes ax), tDcolon, (.nametest, tx)] bs ++ more =
+      axisBytes ax ++ 0x3a :: 0x3a :: (tx ++ (blank1 (bs.drop 2) ++ more)) := by
+    intro bs more; simp [detokW_cons, detokW, tokTextW, tDcolon]
   refine ⟨?_, ?_⟩
-  · intro more _
+  · intro bs more _ _
     rw [hd, hct0]
     exact NW.cons (identStart_not_ws hc0)
-  · intro st more hr hm hp
+  · intro st bs more hb hr hm hp
     rw [hd] at hr
+    obtain ⟨w, b', e1, hw, hb'⟩ := Blank.shape (blank1_ok (Blanks.drop hb 2))
+    rw [e1] at hr
+    have hr' : st.rest = axisBytes ax ++ 0x3a :: 0x3a :: (tx ++ w :: (b' ++ more)) := by rw [hr]; simp
     have hctx : operCtx st.acc = false := hp false rfl
-    obtain ⟨n2, f1, f2, hnp, hnt⟩ := hlex (afterAxis st (axisBytes ax) (tx ++ 0x20 :: more)) more rfl
-    have h1 : lexStep st = .ok { acc := ⟨.nametest, st.pos + (axisBytes ax).length + 2, tx⟩ :: ⟨.dcolon, st.pos + (axisBytes ax).length, [0x3a, 0x3a]⟩ :: ⟨.axisname, st.pos, axisBytes ax⟩ :: st.acc, ntype := f1, func := f2, pos := st.pos + (axisBytes ax).length + 2 + tx.length, rest := 0x20 :: more } := by
-      have e : lexStep st = lexChar st c0 (t0 ++ 0x3a :: 0x3a :: (tx ++ 0x20 :: more)) := by simp [lexStep, hr, hct0]
+    obtain ⟨n2, f1, f2, hnp, hnt⟩ := hlex (afterAxis st (axisBytes ax) (tx ++ w :: (b' ++ more))) w (b' ++ more) hw rfl
+    have h1 : lexStep st = .ok { acc := ⟨.nametest, st.pos + (axisBytes ax).length + 2, tx⟩ :: ⟨.dcolon, st.pos + (axisBytes ax).length, [0x3a, 0x3a]⟩ :: ⟨.axisname, st.pos, axisBytes ax⟩ :: st.acc, ntype := f1, func := f2, pos := st.pos + (axisBytes ax).length + 2 + tx.length, rest := (w :: b') ++ more } := by
+      have e : lexStep st = lexChar st c0 (t0 ++ 0x3a :: 0x3a :: (tx ++ w :: (b' ++ more))) := by simp [lexStep, hr', hct0]
       rw [e, lexChar_ident st _ hc0, hctx]
       simp only [Bool.false_eq_true, if_false]
-      rw [lexName_axis st ax _ hr (by obtain ⟨c, r, rfl, hc⟩ := htx; exact wsLen_nonws _ hc)]
-      have hnp' : namePart (tx ++ 0x20 :: more) = some n2 := hnp
+      rw [lexName_axis st ax _ hr' (by obtain ⟨c, r, rfl, hc⟩ := htx; exact wsLen_nonws _ hc)]
+      have hnp' : namePart (tx ++ w :: (b' ++ more)) = some n2 := hnp
       simp only [hnp']
       rw [hnt]
       rfl
-    have s1 := iter_space h1 rfl (wsLen_space hm)
+    have s1 := iter_blank h1 rfl (allws_cons hw hb') hm
     refine ⟨_, Reach.single s1, rfl, ?_, ?_⟩
     · simp [ptOf, tDcolon]
     · intro b hb
@@ -639,42 +723,47 @@ theorem seg_step_name (ax : Axis) (tx : Bytes) (htx : ∃ c r, tx = c :: r ∧ P
       exact ctx_of_acc (k := .nametest) (tx := tx) (r := tDcolon :: (.axisname, axisBytes ax) :: st.acc.map ptOf)
         (by simp [ptOf, tDcolon])
 
-
 theorem isName_ident {b : Bytes} (h : isName b = true) : Path.IsIdent b := by simpa [isName] using h
 
 theorem seg_step_nodetype (ax : Axis) (nt : Bytes) (hid : Path.IsIdent nt) (hnt : nt ∈ XpConsts.nodeTypeNames) :
     Seg (some false) [(.axisname, axisBytes ax), tDcolon, (.nodetype, nt), tPar1, tPar2] (some true) := by
   obtain ⟨haid, _⟩ := axis_facts ax
   obtain ⟨c0, t0, hct0, hc0⟩ := ident_head haid
-  have hd : ∀ more, detok [(.axisname, axisBytes ax), tDcolon, (.nodetype, nt), tPar1, tPar2] ++ more =
-      axisBytes ax ++ 0x3a :: 0x3a :: (nt ++ 0x20 :: 0x28 :: 0x20 :: 0x29 :: 0x20 :: more) := by
-    intro more; simp [detok, tokText, tDcolon, tPar1, tPar2]
+  have hd : ∀ bs more, detokW [(.axisname, axisBytes ax), tDcolon, (.nodetype, nt), tPar1, tPar2] bs ++ more =
+      axisBytes ax ++ 0x3a :: 0x3a :: (nt ++ (blank1 (bs.drop 2) ++ 0x28 :: (blank1 (bs.drop 3) ++ 0x29 :: (blank1 (bs.drop 4) ++ more)))) := by
+    intro bs more; simp [detokW_cons, detokW, tokTextW, tDcolon, tPar1, tPar2]
   refine ⟨?_, ?_⟩
-  · intro more _
+  · intro bs more _ _
     rw [hd, hct0]
     exact NW.cons (identStart_not_ws hc0)
-  · intro st more hr hm hp
+  · intro st bs more hb hr hm hp
     rw [hd] at hr
+    obtain ⟨w1, r1, e1, hw1, hr1⟩ := Blank.shape (blank1_ok (Blanks.drop hb 2))
+    obtain ⟨w2, r2, e2, hw2, hr2⟩ := Blank.shape (blank1_ok (Blanks.drop hb 3))
+    obtain ⟨w3, r3, e3, hw3, hr3⟩ := Blank.shape (blank1_ok (Blanks.drop hb 4))
+    rw [e1, e2, e3] at hr
+    have hr' : st.rest = axisBytes ax ++ 0x3a :: 0x3a :: (nt ++ w1 :: (r1 ++ 0x28 :: (w2 :: r2 ++ 0x29 :: (w3 :: r3 ++ more)))) := by
+      rw [hr]; simp
     have hctx : operCtx st.acc = false := hp false rfl
-    have h1 : lexStep st = .ok { acc := ⟨.nametest, st.pos + (axisBytes ax).length + 2, nt⟩ :: ⟨.dcolon, st.pos + (axisBytes ax).length, [0x3a, 0x3a]⟩ :: ⟨.axisname, st.pos, axisBytes ax⟩ :: st.acc, ntype := true, func := false, pos := st.pos + (axisBytes ax).length + 2 + nt.length, rest := 0x20 :: 0x28 :: 0x20 :: 0x29 :: 0x20 :: more } := by
-      have e : lexStep st = lexChar st c0 (t0 ++ 0x3a :: 0x3a :: (nt ++ 0x20 :: 0x28 :: 0x20 :: 0x29 :: 0x20 :: more)) := by
-        simp [lexStep, hr, hct0]
+    have h1 : lexStep st = .ok { acc := ⟨.nametest, st.pos + (axisBytes ax).length + 2, nt⟩ :: ⟨.dcolon, st.pos + (axisBytes ax).length, [0x3a, 0x3a]⟩ :: ⟨.axisname, st.pos, axisBytes ax⟩ :: st.acc, ntype := true, func := false, pos := st.pos + (axisBytes ax).length + 2 + nt.length, rest := (w1 :: r1) ++ 0x28 :: (w2 :: r2 ++ 0x29 :: (w3 :: r3 ++ more)) } := by
+      have e : lexStep st = lexChar st c0 (t0 ++ 0x3a :: 0x3a :: (nt ++ w1 :: (r1 ++ 0x28 :: (w2 :: r2 ++ 0x29 :: (w3 :: r3 ++ more))))) := by
+        simp [lexStep, hr', hct0]
       rw [e, lexChar_ident st _ hc0, hctx]
       simp only [Bool.false_eq_true, if_false]
-      rw [lexName_axis st ax _ hr (by obtain ⟨c, t, hct, hc⟩ := ident_head hid; rw [hct]; exact wsLen_nonws _ (identStart_not_ws hc))]
-      have hnp := namePart_ident hid (0x20 :: 0x28 :: 0x20 :: 0x29 :: 0x20 :: more) (stop_space _)
+      rw [lexName_axis st ax _ hr' (by obtain ⟨c, t, hct, hc⟩ := ident_head hid; rw [hct]; exact wsLen_nonws _ (identStart_not_ws hc))]
+      have hnp := namePart_ident hid (w1 :: (r1 ++ 0x28 :: (w2 :: r2 ++ 0x29 :: (w3 :: r3 ++ more)))) (stop_ws hw1 _)
       simp only [hnp]
-      rw [nameTail_ident_space (afterAxis st (axisBytes ax) _) hid (0x28 :: 0x20 :: 0x29 :: 0x20 :: more) rfl true]
+      rw [nameTail_ident_space (afterAxis st (axisBytes ax) _) hid w1 hw1 _ rfl true]
       rfl
-    have s1 := iter_space h1 rfl (wsLen_space_then (c := 0x28) _ (by decide))
-    have h2 : lexStep { acc := ⟨.nametest, st.pos + (axisBytes ax).length + 2, nt⟩ :: ⟨.dcolon, st.pos + (axisBytes ax).length, [0x3a, 0x3a]⟩ :: ⟨.axisname, st.pos, axisBytes ax⟩ :: st.acc, ntype := true, func := false, pos := st.pos + (axisBytes ax).length + 2 + nt.length + 1, rest := 0x28 :: 0x20 :: 0x29 :: 0x20 :: more } =
-        .ok { acc := ⟨.par1, st.pos + (axisBytes ax).length + 2 + nt.length + 1, [0x28]⟩ :: ⟨.nodetype, st.pos + (axisBytes ax).length + 2, nt⟩ :: ⟨.dcolon, st.pos + (axisBytes ax).length, [0x3a, 0x3a]⟩ :: ⟨.axisname, st.pos, axisBytes ax⟩ :: st.acc, ntype := false, func := false, pos := st.pos + (axisBytes ax).length + 2 + nt.length + 1 + 1, rest := 0x20 :: 0x29 :: 0x20 :: more } := by
+    have s1 := iter_blank h1 rfl (allws_cons hw1 hr1) (by simp [wsLen, Path.isWs])
+    have h2 : lexStep { acc := ⟨.nametest, st.pos + (axisBytes ax).length + 2, nt⟩ :: ⟨.dcolon, st.pos + (axisBytes ax).length, [0x3a, 0x3a]⟩ :: ⟨.axisname, st.pos, axisBytes ax⟩ :: st.acc, ntype := true, func := false, pos := st.pos + (axisBytes ax).length + 2 + nt.length + (w1 :: r1).length, rest := 0x28 :: (w2 :: r2 ++ 0x29 :: (w3 :: r3 ++ more)) } =
+        .ok { acc := ⟨.par1, st.pos + (axisBytes ax).length + 2 + nt.length + (w1 :: r1).length, [0x28]⟩ :: ⟨.nodetype, st.pos + (axisBytes ax).length + 2, nt⟩ :: ⟨.dcolon, st.pos + (axisBytes ax).length, [0x3a, 0x3a]⟩ :: ⟨.axisname, st.pos, axisBytes ax⟩ :: st.acc, ntype := false, func := false, pos := st.pos + (axisBytes ax).length + 2 + nt.length + (w1 :: r1).length + 1, rest := (w2 :: r2) ++ 0x29 :: (w3 :: r3 ++ more) } := by
       simp [lexStep, lexChar, reclassify, hnt, St.push]
-    have s2 := iter_space h2 rfl (wsLen_space_then (c := 0x29) _ (by decide))
-    have h3 : lexStep { acc := ⟨.par1, st.pos + (axisBytes ax).length + 2 + nt.length + 1, [0x28]⟩ :: ⟨.nodetype, st.pos + (axisBytes ax).length + 2, nt⟩ :: ⟨.dcolon, st.pos + (axisBytes ax).length, [0x3a, 0x3a]⟩ :: ⟨.axisname, st.pos, axisBytes ax⟩ :: st.acc, ntype := false, func := false, pos := st.pos + (axisBytes ax).length + 2 + nt.length + 1 + 1 + 1, rest := 0x29 :: 0x20 :: more } =
-        .ok { acc := ⟨.par2, st.pos + (axisBytes ax).length + 2 + nt.length + 1 + 1 + 1, [0x29]⟩ :: ⟨.par1, st.pos + (axisBytes ax).length + 2 + nt.length + 1, [0x28]⟩ :: ⟨.nodetype, st.pos + (axisBytes ax).length + 2, nt⟩ :: ⟨.dcolon, st.pos + (axisBytes ax).length, [0x3a, 0x3a]⟩ :: ⟨.axisname, st.pos, axisBytes ax⟩ :: st.acc, ntype := false, func := false, pos := st.pos + (axisBytes ax).length + 2 + nt.length + 1 + 1 + 1 + 1, rest := 0x20 :: more } := by
+    have s2 := iter_blank h2 rfl (allws_cons hw2 hr2) (by simp [wsLen, Path.isWs])
+    have h3 : lexStep { acc := ⟨.par1, st.pos + (axisBytes ax).length + 2 + nt.length + (w1 :: r1).length, [0x28]⟩ :: ⟨.nodetype, st.pos + (axisBytes ax).length + 2, nt⟩ :: ⟨.dcolon, st.pos + (axisBytes ax).length, [0x3a, 0x3a]⟩ :: ⟨.axisname, st.pos, axisBytes ax⟩ :: st.acc, ntype := false, func := false, pos := st.pos + (axisBytes ax).length + 2 + nt.length + (w1 :: r1).length + 1 + (w2 :: r2).length, rest := 0x29 :: (w3 :: r3 ++ more) } =
+        .ok { acc := ⟨.par2, st.pos + (axisBytes ax).length + 2 + nt.length + (w1 :: r1).length + 1 + (w2 :: r2).length, [0x29]⟩ :: ⟨.par1, st.pos + (axisBytes ax).length + 2 + nt.length + (w1 :: r1).length, [0x28]⟩ :: ⟨.nodetype, st.pos + (axisBytes ax).length + 2, nt⟩ :: ⟨.dcolon, st.pos + (axisBytes ax).length, [0x3a, 0x3a]⟩ :: ⟨.axisname, st.pos, axisBytes ax⟩ :: st.acc, ntype := false, func := false, pos := st.pos + (axisBytes ax).length + 2 + nt.length + (w1 :: r1).length + 1 + (w2 :: r2).length + 1, rest := (w3 :: r3) ++ more } := by
       simp [lexStep, lexChar, St.push]
-    have s3 := iter_space h3 rfl (wsLen_space hm)
+    have s3 := iter_blank h3 rfl (allws_cons hw3 hr3) hm
     refine ⟨_, Reach.step s1 (Reach.step s2 (Reach.single s3)), rfl, ?_, ?_⟩
     · simp [ptOf, tDcolon, tPar1, tPar2]
     · intro b hb
@@ -690,31 +779,31 @@ theorem seg_step_test (ax : Axis) (t : Test) (ht : testOk t = true) :
     | none =>
       have hl : Path.IsIdent loc := isName_ident (by simpa [testOk] using ht)
       refine seg_step_name ax loc (by obtain ⟨c, t, hct, hc⟩ := ident_head hl; exact ⟨c, t, hct, identStart_not_ws hc⟩) ?_
-      intro st2 more hr
-      refine ⟨loc.length, true, false, by rw [hr]; exact namePart_ident hl _ (stop_space _), ?_⟩
-      rw [nameTail_ident_space st2 hl more hr true]; rfl
+      intro st2 w more hw hr
+      refine ⟨loc.length, true, false, by rw [hr]; exact namePart_ident hl _ (stop_ws hw _), ?_⟩
+      rw [nameTail_ident_space st2 hl w hw more hr true]; rfl
     | some q =>
       have hq : isName q = true ∧ isName loc = true := by simpa [testOk] using ht
       have hqi := isName_ident hq.1
       have hli := isName_ident hq.2
       refine seg_step_name ax (q ++ 0x3a :: loc)
         (by obtain ⟨c, t, hct, hc⟩ := ident_head hqi; exact ⟨c, t ++ 0x3a :: loc, by simp [hct], identStart_not_ws hc⟩) ?_
-      intro st2 more hr
-      have hr' : st2.rest = q ++ 0x3a :: (loc ++ 0x20 :: more) := by rw [hr]; simp
+      intro st2 w more hw hr
+      have hr' : st2.rest = q ++ 0x3a :: (loc ++ w :: more) := by rw [hr]; simp
       refine ⟨q.length, false, false, by rw [hr']; exact namePart_ident hqi _ (stop_colon _), ?_⟩
-      have hdrop : st2.rest.drop q.length = 0x3a :: (loc ++ 0x20 :: more) := by rw [hr']; simp
-      have hnc := ncname_stop hli (0x20 :: more) (stop_space _)
+      have hdrop : st2.rest.drop q.length = 0x3a :: (loc ++ w :: more) := by rw [hr']; simp
+      have hnc := ncname_stop hli (w :: more) (stop_ws hw _)
       obtain ⟨c, t, hct, hc⟩ := ident_head hli
       have h42 : c ≠ 0x2a := by
         have := (Path.identStart_ne hc).2.2.2.2.2.2.2.2.2.2.2.2.2.2.2.2.2.2.2
         simpa using this
       have htake : st2.rest.take (q.length + 1 + loc.length) = q ++ 0x3a :: loc := by
         rw [hr']
-        have : q ++ 0x3a :: (loc ++ 0x20 :: more) = (q ++ 0x3a :: loc) ++ 0x20 :: more := by simp
+        have : q ++ 0x3a :: (loc ++ w :: more) = (q ++ 0x3a :: loc) ++ w :: more := by simp
         rw [this, List.take_left' (by simp; omega)]
-      have hdrop2 : st2.rest.drop (q.length + 1 + loc.length) = 0x20 :: more := by
+      have hdrop2 : st2.rest.drop (q.length + 1 + loc.length) = w :: more := by
         rw [hr']
-        have : q ++ 0x3a :: (loc ++ 0x20 :: more) = (q ++ 0x3a :: loc) ++ 0x20 :: more := by simp
+        have : q ++ 0x3a :: (loc ++ w :: more) = (q ++ 0x3a :: loc) ++ w :: more := by simp
         rw [this, List.drop_left' (by simp; omega)]
       have hss : starStop st2 = false := starStop_ident hqi hr'
       simp only [nameTail, hdrop, hss, Bool.false_eq_true, if_false]
@@ -728,22 +817,22 @@ theorem seg_step_test (ax : Axis) (t : Test) (ht : testOk t = true) :
         omega
   | any =>
     refine seg_step_name ax [0x2a] ⟨0x2a, [], rfl, by decide⟩ ?_
-    intro st2 more hr
+    intro st2 w more hw hr
     refine ⟨1, false, false, by simp [hr, namePart], ?_⟩
-    simp [nameTail, namePlain, hr, St.push]
+    rcases ws_cases hw with rfl | rfl | rfl | rfl <;> simp [nameTail, namePlain, hr, St.push]
   | anyIn q =>
     have hqi := isName_ident (by simpa [testOk] using ht : isName q = true)
     have e : rtest (.anyIn q) = [(.nametest, q ++ [0x3a, 0x2a])] := rfl
     rw [e]
     refine seg_step_name ax (q ++ [0x3a, 0x2a])
       (by obtain ⟨c, t, hct, hc⟩ := ident_head hqi; exact ⟨c, t ++ [0x3a, 0x2a], by simp [hct], identStart_not_ws hc⟩) ?_
-    intro st2 more hr
-    have hr' : st2.rest = q ++ 0x3a :: 0x2a :: 0x20 :: more := by rw [hr]; simp
+    intro st2 w more hw hr
+    have hr' : st2.rest = q ++ 0x3a :: 0x2a :: w :: more := by rw [hr]; simp
     refine ⟨q.length, false, false, by rw [hr']; exact namePart_ident hqi _ (stop_colon _), ?_⟩
-    have hdrop : st2.rest.drop q.length = 0x3a :: 0x2a :: 0x20 :: more := by rw [hr']; simp
+    have hdrop : st2.rest.drop q.length = 0x3a :: 0x2a :: w :: more := by rw [hr']; simp
     have htake : st2.rest.take (q.length + 2) = q ++ [0x3a, 0x2a] := by
       rw [hr]; rw [List.take_left' (by simp)]
-    have hdrop2 : st2.rest.drop (q.length + 2) = 0x20 :: more := by
+    have hdrop2 : st2.rest.drop (q.length + 2) = w :: more := by
       rw [hr]; rw [List.drop_left' (by simp)]
     have hss : starStop st2 = false := starStop_ident hqi hr'
     simp [nameTail, hdrop, hss, St.push, htake, hdrop2]
@@ -917,51 +1006,48 @@ theorem reach_from_nil {a c : St} (h : Reach a c) (ha : a.rest = []) : c = a := 
     obtain ⟨p, hp⟩ := lexStep_nil ha
     rw [hp] at hs; cases hs
 
-/-- the tokenizer on the canonical text of `e` stores exactly the tokens of `rtoks e` (kinds and texts) -/
-theorem wsLen_lead : ∀ (lead r : Bytes), (∀ c ∈ lead, Path.isWs c = true) → wsLen r = 0 → wsLen (lead ++ r) = lead.length := by
-  intro lead
-  induction lead with
-  | nil => intro r _ h; simpa using h
-  | cons c t ih =>
-    intro r hl h
-    have hc : Path.isWs c = true := hl c (by simp)
-    simp [wsLen, hc, ih r (fun x hx => hl x (by simp [hx])) h]
-
-/-- the tokenizer on the canonical text of `e`, after any amount of leading white space, stores exactly the tokens of
-`rtoks e` (kinds and texts) -/
-theorem lex_render_lead (e : Expr) (hw : wf e = true) (lead : Bytes) (hl : ∀ c ∈ lead, Path.isWs c = true) :
-    (lex (lead ++ render e)).toOption.map (·.map ptOf) = some (rtoks e) := by
+/-- the tokenizer on the text of `e` written with ANY non-empty blank strings between the tokens, after any amount of
+leading white space, stores exactly the tokens of `rtoks e` (kinds and texts) -/
+theorem lex_renderW_lead (e : Expr) (hw : wf e = true) (bs : List Bytes) (hb : Blanks bs) (lead : Bytes)
+    (hl : ∀ c ∈ lead, Path.isWs c = true) :
+    (lex (lead ++ renderW bs e)).toOption.map (·.map ptOf) = some (rtoks e) := by
   obtain ⟨hnw, hseg⟩ := lxExpr e hw
-  let st0 : St := { acc := [], ntype := false, func := false, pos := lead.length, rest := render e }
-  obtain ⟨st', hreach, hrest, hacc, _⟩ := hseg st0 [] (by simp [st0, render]) NW.nil (by intro b hb; cases hb; rfl)
+  let st0 : St := { acc := [], ntype := false, func := false, pos := lead.length, rest := renderW bs e }
+  obtain ⟨st', hreach, hrest, hacc, _⟩ := hseg st0 bs [] hb (by simp [st0, renderW]) NW.nil (by intro b hb; cases hb; rfl)
   have htoks : rtoks e ≠ [] := by
     obtain ⟨k, hk1, _, _⟩ := LemmasParse.head_ok e hw []
     obtain ⟨tx, r, hr⟩ := LemmasParse.hk_some hk1
     intro h; rw [h] at hr; simp at hr
-  have hne : render e ≠ [] := by
+  have hne : renderW bs e ≠ [] := by
     intro h
     have := reach_from_nil hreach (by simp [st0, h])
     rw [this] at hacc
     simp [st0] at hacc
     exact htoks hacc
-  have hnws : wsLen (render e) = 0 := by
-    have := hnw [] NW.nil
-    simpa [render, NW] using this
-  have hinit : St.skipWs { acc := [], ntype := false, func := false, pos := 0, rest := lead ++ render e } = st0 := by
+  have hnws : wsLen (renderW bs e) = 0 := by
+    have := hnw bs [] hb NW.nil
+    simpa [renderW, NW] using this
+  have hinit : St.skipWs { acc := [], ntype := false, func := false, pos := 0, rest := lead ++ renderW bs e } = st0 := by
     simp [St.skipWs, wsLen_lead lead _ hl hnws, st0]
-  have hlex : lex (lead ++ render e) = lexLoop ((lead ++ render e).length + 1) st0 := by
+  have hlex : lex (lead ++ renderW bs e) = lexLoop ((lead ++ renderW bs e).length + 1) st0 := by
     unfold lex
-    have : (lead ++ render e).isEmpty = false := by
-      cases h : lead ++ render e with
+    have : (lead ++ renderW bs e).isEmpty = false := by
+      cases h : lead ++ renderW bs e with
       | nil => simp at h; exact absurd h.2 hne
       | cons _ _ => rfl
     simp only [this, Bool.false_eq_true, if_false, hinit]
-  have hnf := lex_no_fuel (lead ++ render e)
-  rcases lexLoop_of_reach hreach hrest (by simpa [st0] using hne) ((lead ++ render e).length + 1) with h | h
+  have hnf := lex_no_fuel (lead ++ renderW bs e)
+  rcases lexLoop_of_reach hreach hrest (by simpa [st0] using hne) ((lead ++ renderW bs e).length + 1) with h | h
   · rw [hlex, h]
     simp only [Except.toOption, Option.map_some, List.map_reverse, hacc]
     simp [st0]
   · rw [hlex] at hnf; exact absurd h hnf
+
+theorem renderW_nil (e : Expr) : renderW [] e = render e := by simp [renderW, render, detokW_nil]
+
+theorem lex_render_lead (e : Expr) (hw : wf e = true) (lead : Bytes) (hl : ∀ c ∈ lead, Path.isWs c = true) :
+    (lex (lead ++ render e)).toOption.map (·.map ptOf) = some (rtoks e) := by
+  rw [← renderW_nil]; exact lex_renderW_lead e hw [] (by intro b hb; cases hb) lead hl
 
 theorem lex_render (e : Expr) (hw : wf e = true) : (lex (render e)).toOption.map (·.map ptOf) = some (rtoks e) := by
   simpa using lex_render_lead e hw [] (by intro c hc; cases hc)
